@@ -172,6 +172,9 @@ def run(ctx):
             if ev and ev.get("e") == "ReadBlocked":
                 ctx.violation("%s:readers-not-shared" % label, "a second reader (%s) could not enter within 3 s while only a reader held the lock: readers must be able to hold the lock together" % label, [f])
                 continue
+            if ev and ev.get("e") == "Overlap":
+                ctx.violation("%s:overlap" % label, "lock (%s): two threads were inside the same critical section at once (six threads taking two lock objects through lock and trylock, not logged)" % label, [f])
+                continue
             if ev and ev.get("e") == "LockDead":
                 ctx.violation("%s:lock-dead" % label, "lock (%s): a thread that only locks and unlocks, next to one that only calls trylock, did not finish within 15 s: the lock was lost (held by nobody)" % label, [f])
                 continue
